@@ -66,6 +66,7 @@ MANIFEST = {
 THEOREMS = {p: [] for p in PROPS}
 MODULES = {p: [] for p in PROPS}
 OBLIG = []
+OBLIG_BY_PROP = {}
 
 # theorem lists are contributed by tools/props/backend_thm_*.py (one per proof bundle): THEOREMS, MODULES, OBLIG
 import glob as _glob
@@ -81,13 +82,23 @@ for _f in sorted(_glob.glob(os.path.join(os.path.dirname(os.path.abspath(__file_
     for _x in getattr(_m, "OBLIG", []):
         if _x not in OBLIG:
             OBLIG.append(_x)
+        # a bundle's obligation modules belong to the properties that bundle lists theorems for: a broken obligation of the
+        # filter bundle is C16's broken tie, not C03's
+        for _p in getattr(_m, "THEOREMS", {}):
+            if getattr(_m, "THEOREMS", {}).get(_p) and _x not in OBLIG_BY_PROP.setdefault(_p, []):
+                OBLIG_BY_PROP[_p].append(_x)
 
-# structural obligations of the coordinator (Obligations/BackendStructure.lean): attached to a property once it is claimed
+# structural obligations of the coordinator (Obligations/Structure/<Cxx>.lean, one module per property): attached once it is claimed
 for _p in list(THEOREMS):
-    if THEOREMS[_p]:
+    if THEOREMS[_p] and _p in PROPS:
         THEOREMS[_p] += ["Obligations.structure_%s" % _p, "Obligations.backend_extraction_complete"]
-if any(THEOREMS.values()) and "QuillModel.Obligations.BackendStructure" not in OBLIG:
-    OBLIG.append("QuillModel.Obligations.BackendStructure")
+for _p in list(THEOREMS):
+    if THEOREMS[_p] and _p in PROPS:
+        for _x in ("QuillModel.Obligations.Structure.%s" % _p, "QuillModel.Obligations.Structure.Complete"):
+            if _x not in OBLIG:
+                OBLIG.append(_x)
+            if _x not in OBLIG_BY_PROP.setdefault(_p, []):
+                OBLIG_BY_PROP[_p].append(_x)
 
 # a property is claimed in MANIFEST.json only once its theorem file exists
 _ALL_MANIFEST = MANIFEST
@@ -390,7 +401,7 @@ def run(prop, tier):
         "the bounded SPSC queue inside the model is Spsc.absApi run with newest-value loads (its weak-memory behaviour is C01's subject)",
         "pattern '%(message)' and std::string payloads only: formatting/codec correctness is C04/C12's subject",
     ]
-    ps = ck.proof_side(MODULES[prop], THEOREMS[prop], OBLIG) if THEOREMS[prop] else {"ok": True, "broken": []}
+    ps = ck.proof_side(MODULES[prop], THEOREMS[prop], OBLIG_BY_PROP.get(prop, OBLIG)) if THEOREMS[prop] else {"ok": True, "broken": []}
     if not THEOREMS[prop]:
         ck.extracted = vlib.run_extract()
         vlib.lake_build(["driver"])
